@@ -39,28 +39,53 @@ def _tables(cx):
     return t, ops
 
 
-def _event(n):
-    if n['kind'] not in ('call', 'enter'):
+def _mk_event(func_cls, sub_cls):
+    def _event(n):
+        if n['kind'] not in ('call', 'enter'):
+            return None
+        m = down_method(n)
+        if m in ('error', 'complete'):
+            return ('down',)
+        if n['name'] == UNSUB and n['args'] and recv_class(n['args'][0]) == sub_cls:
+            return ('down',)
+        if n['name'] in FN_CALLS and n['args']:
+            root, steps = access_path(n['args'][0])
+            if recv_class(n['args'][0]) == func_cls:
+                return ('fin',) if '!take' in steps else ('fin_notake',)
+        if n['name'] in TAKE and n['args']:
+            if recv_class(n['args'][0]) == func_cls:
+                return ('take',)
         return None
-    m = down_method(n)
-    if m in ('error', 'complete'):
-        return ('down',)
-    if n['name'] == UNSUB and n['args'] and recv_class(n['args'][0]).endswith('.subscription'):
-        return ('down',)
-    if n['name'] in FN_CALLS and n['args']:
-        root, steps = access_path(n['args'][0])
-        cls = recv_class(n['args'][0])
-        if cls.endswith('.func') or cls.endswith('.1'):
-            return ('fin',) if '!take' in steps else ('fin_notake',)
-    if n['name'] in TAKE and n['args']:
-        if recv_class(n['args'][0]).endswith('.func'):
-            return ('take',)
-    return None
+    return _event
 
 
-def _down_only(n):
-    t = _event(n)
-    return t if t == ('down',) else None
+def _roles_of(cx, im, adt_path):
+    """(callback cell field, inner subscription field or None) from the impl's bounds: the callback cell is the field whose
+    type parameter is bounded by RcDerefMut (or is a MutRc|MutArc<Option<F>> with F: FnOnce|FnMut), the inner subscription
+    the field whose parameter is bounded by Subscription"""
+    F = cx.facts
+    adt = F.adts.get(adt_path)
+    st = F.ty(F.strip_refs(im['self']))
+    amap = dict(zip(adt['generics'], [F.tystr(a) for a in st.get('a', [])])) if adt else {}
+    bounds = {}
+    for p in im['preds']:
+        if p['k'] == 'trait':
+            bounds.setdefault(F.tystr(p['self']), set()).add(p['tr'])
+    func = sub = None
+    for n, t in roles.adt_fields(cx, adt_path):
+        ty = F.ty(t)
+        if ty['k'] == 'param':
+            b = bounds.get(amap.get(ty['n'], ty['n']), set())
+            if 'rc::RcDerefMut' in b or 'rc::RcDeref' in b:
+                func = n
+            elif 'subscription::Subscription' in b:
+                sub = n
+        elif roles.is_cell_of(F, ty, lambda o: roles.is_option_of(F, o, lambda x: x['k'] == 'param')):
+            func = n
+    if func is None:
+        from ..core import Incomplete
+        raise Incomplete('cannot identify the callback cell of %s' % adt_path)
+    return 'self.' + func, ('self.' + sub) if sub else None
 
 
 def check(cx):
@@ -74,6 +99,9 @@ def check(cx):
             continue
         found.add(tag)
         trait, triggers, others = table[tag]
+        func_cls, sub_cls = _roles_of(cx, im, tag)
+        _event = _mk_event(func_cls, sub_cls)
+        _down_only = lambda n, _e=_event: (lambda t: t if t == ('down',) else None)(_e(n))
         # N1: bounds of the callback parameter
         fparams = set()
         for p in im['preds']:
@@ -94,7 +122,7 @@ def check(cx):
             g = cx.graph(fn['key'])
             bad = lang_check(g, 'down', _down_only, exact=True, empty_ok=False)
             if not bad:
-                bad = lang_check(g, 'down take fin', _event, exact=True, empty_ok=True, classes={'self.func'})
+                bad = lang_check(g, 'down take fin', _event, exact=True, empty_ok=True, classes={func_cls})
             if bad:
                 res.append(Finding(ID, 'N2', label, False, 'trigger must deliver downstream, then take() and call the callback once: ' + bad[0], fn['span'], bad[1]))
             else:
@@ -129,8 +157,9 @@ def check(cx):
         label = cx.label(fn)
         g = cx.graph(fn['key'])
         owns = [n for n in g.nodes if n['kind'] == 'call' and n['name'].startswith(('rc::MutRc::own', 'rc::MutArc::own'))]
-        ok = len(owns) == 1 and 'self.func' in _render_all(owns[0])
-        fpred = [p for p in im['preds'] if p['k'] == 'trait' and F.tystr(p['self']) == 'F']
+        opf = [n_ for n_, t_ in roles.adt_fields(cx, tag) if F.ty(t_)['k'] == 'param' and any(p['k'] == 'trait' and p['tr'] == 'std::ops::FnOnce' and F.tystr(p['self']) == dict(zip(F.adts[tag]['generics'], [F.tystr(a) for a in F.ty(F.strip_refs(im['self'])).get('a', [])])).get(F.ty(t_)['n'], F.ty(t_)['n']) for p in im['preds'])]
+        ok = len(owns) == 1 and bool(opf) and ('self.' + opf[0]) in _render_all(owns[0])
+        fpred = [p for p in im['preds'] if p['k'] == 'trait' and p['tr'] in ('std::ops::FnOnce', 'std::ops::FnMut', 'std::ops::Fn', 'std::clone::Clone', 'std::marker::Copy') and F.ty(p['self'])['k'] == 'param' and any(q['tr'] == 'std::ops::FnOnce' and q['self'] == p['self'] for q in im['preds'] if q['k'] == 'trait')]
         only_once = all(p['tr'] in ('std::ops::FnOnce', 'std::marker::Sized') for p in fpred) and any(p['tr'] == 'std::ops::FnOnce' for p in fpred)
         res.append(Finding(ID, 'N1', label, ok and only_once,
                            'one shared Option cell per subscription, created from self.func; F: FnOnce() only' if ok and only_once else
